@@ -7,11 +7,9 @@ package account
 //@ def isAL(a *Account) bool := a.accountType == 0 || a.accountType == 1
 //@ def isIE(a *Account) bool := a.accountType == 3 || a.accountType == 4
 //
-// The registry: the table lookups Get/GetPath (locks, the multimap tree, strings.Split/Join) are
-// trusted to hand out valid accounts and to touch only the registry's index and tree - in particular
-// NOT the swaps cache. Everything built on top of them is verified against these two contracts.
-// GetPath needs a non-empty path: for the empty path the tree lookup finds the root, whose Value is nil,
-// and (nil, nil) comes back - callers are checked never to ask for it.
+// The registry. GetPath needs a non-empty path: for the empty path the tree lookup finds the root, whose Value
+// is nil, and (nil, nil) comes back - callers are checked never to ask for it. Nothing here touches the swaps
+// cache except SwapType.
 // wfAccounts: the index maps a name to a live, valid account of exactly that name whose segments slice has
 // no spare capacity. Get itself is VERIFIED against this invariant (an indexed name is answered from the
 // index: the same account on every call); what stays trusted is the slow path getOrCreatePath (locks, the
